@@ -56,6 +56,10 @@ chk("C13","exploration",
     "Child process per batch, booted with each of the 16 combinations of optional subsystems; raw bytes, broken JSON and structure-aware hostile messages of all ten kinds from clients in every session state; every command is on disk before it is sent, so a dead child yields the killing input; liveness of the process and of a bystander session, a reply for every request with an id (an id-less error for requests that cannot be decoded or are refused before dispatch), error codes for ill-formed topic names. Drafty-shaped hostile content is rendered through drafty.PlainText/Preview in-package.",
     "websocket transport only (long-poll and gRPC entry points share dispatch but their read loops are not fuzzed); FCM/TNPG payload builders are covered only through the drafty renderer they call.",
     "crash/liveness monitor over child processes + request/reply correlation","sim","DESIGN.md 3/C13")
+chk("C14","exploration",
+    "Race-detector build of the whole server under concurrent attach/detach/unsubscribe/publish/get/slow-consumer/disconnect/topic-deletion/account-deletion/topic-creation workloads with seeded store delays; at logical quiescence: all sub/leave/del requests answered, attachment tables of sessions (under their lock) and topics agree, no dead session attached, online counters match, nothing parked in a channel send / wait group / mutex / an unanswerable receive, deleted topics refuse requests, no attachment left after all clients disconnect; Go race reports are classified by the driver: in scope iff the racing source line names the data the property lists.",
+    "schedules are those the Go scheduler produces under -race with injected store delays (3 batches x 3 rounds quick, 10 x 12 thorough); reports whose one side is the harness reading actor state at quiescence are excluded; races on actor-private topic fields read by hub helper goroutines are counted as out of scope (not covered by the statement).",
+    "Go race detector + structural invariants and blocked-goroutine scan at quiescent points","sim","DESIGN.md 3/C14")
 chk("C05","exploration",
     "Runtime oracle over the real AccessMode code: every one of the 256x256 permission pairs is pushed through Delta/ApplyDelta/ApplyMutation and every set through text/JSON/SQL round trips (finite core enumerated completely); all short strings over the mode alphabet plus junk are compared with an independent reference for the stated laws (unknown letters rejected and target unchanged, empty = no change, N = none). The on-the-wire intersection law and the notification-replay clause are monitored in the C07 engine runs and reported there.",
     "Reference parser in harness/types/c05.go is trusted; strings longer than 5 are sampled, not enumerated; proxy replay through updateAcsFromPresMsg is exercised by the sim engine (C07), not here.",
